@@ -47,6 +47,76 @@ fn dump_file(obj: &DefaultDicomObject) -> Out {
     }
 }
 
+pub const DUMP_WIDTHS: [u32; 9] = [0, 1, 40, 66, 67, 68, 80, 121, 200];
+
+/// dicom-dump with the width limit ON. `dump_element` is the public function that takes a writer and
+/// the limit parameters; the `DumpOptions::dump_object` / `dump_file` entry points honour width /
+/// no_text_limit / no_limit only when printing to standard output, so they run only in worker
+/// processes (stdout on /dev/null).
+/// `widths` = the widths to use; every width is crossed with depth 0..2 and the limit flags.
+pub fn dump_limited_eps(cx: &mut Ctx, obj: &InMemDicomObject, widths: &[u32], label: &str, what: &dyn Fn() -> String, input: &[u8]) {
+    for &w in widths {
+        cx.exec("dump_element", &format!("width={w}/depth=0..2/limits"), label, what, input, || {
+            let mut out = Vec::new();
+            for depth in 0..3u32 {
+                for (ntl, nl) in [(false, false), (true, false)] {
+                    for e in obj.iter() {
+                        if dicom_dump::dump_element(&mut out, e, w, depth, ntl, nl).is_err() {
+                            return Out::Err;
+                        }
+                    }
+                    out.clear();
+                }
+            }
+            Out::Ok
+        });
+    }
+    if cx.stdout_null {
+        // three of the widths per object, rotating with the index; options crossed along the widths
+        let rot = cx.idx as usize;
+        for k in 0..widths.len().min(3) {
+            let i = (rot + k * 3) % widths.len();
+            let w = widths[i];
+            let (ntl, nl) = [(false, false), (true, false), (false, true)][(i + rot / widths.len()) % 3];
+            cx.exec("DumpOptions::dump_object(stdout)", &format!("width={w}/no_text_limit={ntl}/no_limit={nl}"), label, what, input, || {
+                match DumpOptions::new().color_mode(ColorMode::Never).width(w).no_text_limit(ntl).no_limit(nl).dump_object(obj) {
+                    Ok(()) => Out::Ok,
+                    Err(_) => Out::Err,
+                }
+            });
+        }
+    }
+}
+
+/// DumpFormat::Json through a writer, and (workers only) both formats of a file object to stdout with limits on.
+pub fn dump_formats_eps(cx: &mut Ctx, obj: &InMemDicomObject, ts_uid: &str, label: &str, what: &dyn Fn() -> String, input: &[u8]) {
+    cx.exec("DumpOptions::dump_object_to", "format=json", label, what, input, || {
+        let mut out = Vec::new();
+        match DumpOptions::new().format(dicom_dump::DumpFormat::Json).dump_object_to(&mut out, obj) {
+            Ok(()) => Out::Ok,
+            Err(_) => Out::Err,
+        }
+    });
+    if cx.stdout_null {
+        let meta = dicom_object::FileMetaTableBuilder::new()
+            .transfer_syntax(ts_uid)
+            .media_storage_sop_class_uid("1.2.840.10008.5.1.4.1.1.7")
+            .media_storage_sop_instance_uid("1.2.3.4")
+            .build();
+        if let Ok(meta) = meta {
+            let f = obj.clone().with_exact_meta(meta);
+            for (w, fmt, fname) in [(40u32, dicom_dump::DumpFormat::Text, "text"), (67, dicom_dump::DumpFormat::Text, "text"), (80, dicom_dump::DumpFormat::Json, "json")] {
+                cx.exec("DumpOptions::dump_file(stdout)", &format!("width={w}/format={fname}"), label, what, input, || {
+                    match DumpOptions::new().color_mode(ColorMode::Never).width(w).format(fmt.clone()).dump_file(&f) {
+                        Ok(()) => Out::Ok,
+                        Err(_) => Out::Err,
+                    }
+                });
+            }
+        }
+    }
+}
+
 /// level of detail: Full = every configuration, Lean = one configuration per entry point
 #[derive(Clone, Copy, PartialEq, Eq)]
 pub enum Depth {
@@ -168,6 +238,8 @@ pub fn dataset_eps(cx: &mut Ctx, ti: usize, d: &[u8], what: &dyn Fn() -> String,
     });
     if let Some(o) = got {
         cx.exec("dump_object", "after read_dataset_with_ts", tn, what, d, || dump_obj(&o));
+        // the dump with the limit on: a sub-sample of the widths (the dump family has the full cross)
+        dump_limited_eps(cx, &o, &[67], tn, what, d);
     }
     // collector on a bare data set with a transfer syntax hint
     for op in ["to_end", "fragments"] {
@@ -250,7 +322,9 @@ pub const COLLECTOR_OPS: [&str; 6] =
 pub fn file_eps(cx: &mut Ctx, f: &[u8], label: &str, what: &dyn Fn() -> String, depth: Depth, use_open_file: bool) {
     let rps: &[(ReadPreamble, &str)] = &[(ReadPreamble::Auto, "auto"), (ReadPreamble::Never, "never"), (ReadPreamble::Always, "always")];
     let mut cfgs: Vec<(OddLengthStrategy, &str, ReadPreamble, &str)> = vec![(OddLengthStrategy::Accept, "accept", ReadPreamble::Auto, "auto")];
-    cfgs.push((OddLengthStrategy::Accept, "accept", rps[1].0, rps[1].1));
+    if depth != Depth::Minimal {
+        cfgs.push((OddLengthStrategy::Accept, "accept", rps[1].0, rps[1].1));
+    }
     if depth == Depth::Full {
         cfgs.push((OddLengthStrategy::NextEven, "nexteven", ReadPreamble::Auto, "auto"));
         cfgs.push((OddLengthStrategy::Fail, "fail", ReadPreamble::Auto, "auto"));
@@ -270,6 +344,9 @@ pub fn file_eps(cx: &mut Ctx, f: &[u8], label: &str, what: &dyn Fn() -> String, 
         if i == 0 {
             if let Some(o) = got {
                 cx.exec("dump_file", "after from_reader", label, what, f, || dump_file(&o));
+                if depth == Depth::Full {
+                    dump_limited_eps(cx, &o, &[68], label, what, f);
+                }
                 pixel_eps(cx, &o, label, "after from_reader", what, f);
             }
         }
@@ -291,7 +368,12 @@ pub fn file_eps(cx: &mut Ctx, f: &[u8], label: &str, what: &dyn Fn() -> String, 
             }
         }
     }
-    let ops: &[&str] = if depth == Depth::Full { &COLLECTOR_OPS } else { &COLLECTOR_OPS[..4] };
+    // Minimal: from_reader (+ dump, pixel decoding) and the collector's plain meta+to_end script only
+    let ops: &[&str] = match depth {
+        Depth::Full => &COLLECTOR_OPS,
+        Depth::Lean => &COLLECTOR_OPS[..4],
+        Depth::Minimal => &COLLECTOR_OPS[..1],
+    };
     for op in ops {
         cx.exec("DicomCollector", op, label, what, f, || {
             let mut c = DicomCollectorOptions::new().from_reader(BufReader::new(Cursor::new(f)));
@@ -366,6 +448,7 @@ pub fn json_eps(cx: &mut Ctx, b: &[u8], label: &str, what: &dyn Fn() -> String) 
     }
     if let Some(o) = got {
         cx.exec("dump_object", "after dicom_json::from_str", label, what, b, || dump_obj(&o));
+        dump_limited_eps(cx, &o, &[1, 67], label, what, b);
     }
     if let Ok(s) = std::str::from_utf8(b) {
         cx.exec("dicom_json::from_str", "Tag", label, what, b, || match dicom_json::from_str::<Tag>(s) {
